@@ -71,6 +71,10 @@ Odd ==
     Agg(<<[name |-> "a", t |-> "percentile", field |-> "x", percents |-> <<-5, 500>>]>>),
     Agg(<<[name |-> "a", t |-> "term", field |-> "$q.x", size |-> 1]>>),
     Agg(<<[name |-> "a", t |-> "term", field |-> "l", size |-> 0]>>),
+    Agg(<<[name |-> "a", t |-> "term", field |-> "n", size |-> 0]>>), Agg(<<[name |-> "a", t |-> "term", field |-> "_data", size |-> 2]>>),
+    Agg(<<[name |-> "a", t |-> "term", field |-> "$", size |-> 0]>>), Agg(<<[name |-> "a", t |-> "histogram", field |-> "n", interval |-> 1]>>),
+    Agg(<<[name |-> "a", t |-> "percentile", field |-> "_data", percents |-> <<50>>]>>), Agg(<<[name |-> "a", t |-> "type", field |-> "n"]>>),
+    Agg(<<[name |-> "a", t |-> "field", field |-> "_data"]>>), Agg(<<[name |-> "a", t |-> "field", field |-> "n"]>>),
     Agg(<<[name |-> "a", t |-> "field", field |-> "x"]>>), Agg(<<[name |-> "a", t |-> "field", field |-> ""]>>),
     Agg(<<[name |-> "a", t |-> "type", field |-> "$q.x"]>>),
     \* d: ranges
@@ -104,6 +108,7 @@ Starts == { [op |-> "V", ids |-> <<>>, cls |-> "core"], [op |-> "E", ids |-> <<>
 OddStarts == { [op |-> "V", ids |-> <<"">>, cls |-> "odd"], Mov("out", <<>>), St("count"),
                [op |-> "jump", mark |-> "nowhere", emit |-> FALSE, cls |-> "odd"], [op |-> "mark", name |-> "x", cls |-> "odd"] }
 
+NullOps == {"outNull", "inNull", "outENull", "inENull"}
 GridLite == { Has(Cnd(op, k, a)) : op \in {"within", "eq", "inside"}, k \in {"_gid", "x"}, a \in {S("a"), N(1), L(<<N(1)>>)} }
 
 Init == gi \in GraphIdx /\ up = TRUE /\ \E s \in Starts \cup OddStarts : prog = <<s>>
@@ -112,13 +117,15 @@ Init == gi \in GraphIdx /\ up = TRUE /\ \E s \in Starts \cup OddStarts : prog = 
 \* and grid x core; longer requests only in simulation (Deep).  Requests whose first statement is not
 \* V/E are rejected by validation and are not extended; the empty graph gets one statement.
 Extend(s) ==
-  /\ Len(prog) <= MaxLen
+  /\ Len(prog) <= (IF Len(prog) >= 2 /\ prog[2].op \in NullOps THEN MaxLen + 1 ELSE MaxLen)
   /\ prog[1] \in Starts
   /\ (gi = 1 => Len(prog) = 1)
   /\ \/ Len(prog) = 1
      \/ Deep
      \/ (Len(prog) = 2 /\ prog[2].cls # "grid" /\ (s.cls # "grid" \/ s \in GridLite))
      \/ (Len(prog) = 2 /\ prog[2].cls = "grid" /\ s \in Core)
+     \/ (Len(prog) = 2 /\ prog[2].op \in NullOps /\ s = [op |-> "as", name |-> "m", cls |-> "core"])
+     \/ (Len(prog) = 3 /\ prog[2].op \in NullOps /\ prog[3].op = "as" /\ s.cls # "grid")
   /\ prog' = Append(prog, s)
   /\ UNCHANGED <<gi, up>>     \* whatever the request, the server stays up
 Next == \E s \in All : Extend(s)
